@@ -9,6 +9,8 @@
 //	tiny concurrent    -> CLin: 2..4 goroutines, <= 12 calls: decided by the verified linearizability checker (Common/Hist.v
 //	                      lin_check for the FIFO specification) and cross-checked with aspects_b; CLinX: corrupted copies,
 //	                      only the agreement of the two deciders is checked
+//	GC pressure        -> child processes (gcpressure.go): fresh heap objects through NewPointer / New[*T] / New[struct], consumers hold them
+//	                      in locals across forced collections and validate them; corruption, repeats, disorder, loss, crashes -> violations
 //	constants          -> CConst: scqsize, entries per cache line and samples of cacheRemap16Byte
 package main
 
@@ -945,6 +947,12 @@ func project(h []ev, keep map[int64]bool, keepEmpty map[int]bool) []ev {
 
 func main() {
 	o := vhlib.ParseOpts()
+	if strings.HasPrefix(o.Extra, "child:gc:") { // GC-pressure scenario, see gcpressure.go
+		var variant, idx int
+		fmt.Sscanf(o.Extra, "child:gc:%d:%d", &variant, &idx)
+		gcChildMain(o, variant, idx)
+		return
+	}
 	rng := vhlib.NewRng(o.Seed).Fork() // Fork: vhlib streams of neighbouring seeds are shifted copies of each other
 	header := "From VF Require Import Common.Base C05.Model C05.Aspects C05.Check.\nLocal Open Scope Z_scope.\n" +
 		"Definition ev a b w k := {| inv := a; resp := b; who := w; what := k |}."
@@ -1363,6 +1371,15 @@ func main() {
 	}
 	w.Notes["long_history_events_decided_by_go_twin"] = bigEvents
 	w.Notes["twin_false_on_recorded_small_histories"] = -twinAgree
+
+	// ---- GC pressure on the pointer-carrying variants (child processes; decided there, reported as violations) ----
+	{
+		ngc := 1
+		if th {
+			ngc = 4
+		}
+		reportGC(w, o, startGCChildren(o, ngc)())
+	}
 
 	// ---- emit: every shard starts with at most one heavy case ----
 	li := 0
